@@ -1,3 +1,155 @@
-(* C03 — placeholder while the pipeline is brought up; theorems follow. *)
-From FH Require Import Model.Base Model.RespWrite Spec.RespParse Spec.RespSpec.
-Example C03_placeholder : True. Proof. exact I. Qed.
+(* C03 — Server responses are framed exactly as the handler built them.  Statements only; proofs live in
+   Proof/RespParseProof.v, Proof/RespWriteProof.v, Proof/RespWriteMain.v, Proof/RespWriteRefute.v.
+
+   Vocabulary.
+     hop / hrun / srv_init / srv_finish / respWrite / serve_one  the model (Model/RespWrite.v, Model/HeaderWrite.v)
+     resp_parse / parse_seq    the independent HTTP/1.1 response reader (Spec/RespParse.v)
+     want_of / want_data       status and body the handler program asked for, read off the calls (Spec/RespSpec.v)
+     hop_wf        header names passed to Set/Add/SetCanonical are RFC 9110 tokens other than "Trailer", values are
+                   bytes; no SetProtocol / SetTrailer / AddTrailer call (trailers: see C03_trailers below)
+     raw_free      AppendBody / ctx.Write is never applied to a body installed with SetBodyRaw
+     guard m R     the response handed to Response.Write is consistent: SkipBody iff the request was HEAD, and a body
+                   stream of known size still has its Content-Length line and no chunked marker
+     stream_small  a body stream holds fewer than 16^15 bytes (writeHexInt's range for one chunk)
+   The full statement of the property quantifies over ALL handler programs; it is FALSE of the faithful model outside
+   guard / raw_free: the `_refuted` theorems give the witnesses (findings/C03.txt), and the theorems are proved under
+   exactly those guards. *)
+From FH Require Import Model.Base Model.HeaderWrite Spec.HeadLines Proof.HeaderWriteProof Model.RespWrite Spec.RespParse Spec.RespSpec
+  Proof.RespParseProof Proof.RespWriteProof Proof.RespWriteMain Proof.RespWriteRefute.
+Open Scope N_scope.
+
+(* The bytes written for one request, followed by ANY bytes `tail`, are read by the independent reader as exactly one
+   response with the handler's status and body (no body for HEAD / 204 / 304), not delimited by the connection close,
+   and the reader stops exactly at `tail`.
+   _partial: header-field fidelity ("those header fields") is not part of the conclusion (p_fields is determined —
+   Proof.RespWriteMain.parse_after_head gives it as the trimmed resp_entries — but it is not compared with the
+   handler's Set/Add calls here; C05/C29 own that), and programs with trailers are excluded by hop_wf. *)
+Theorem C03_exactly_one_response_partial : forall smsg date, nc smsg -> nc date ->
+  forall c q m prog tail wire cl,
+  Forall hop_wf prog -> raw_free false prog = true -> q_head q = is_head m ->
+  guard m (finished c q prog) -> stream_small (finished c q prog) ->
+  status_in_scope (w_status (want_of prog)) = true ->
+  serve_one smsg date c q prog = (wire, WrOk, cl) ->
+  exists p, resp_parse m (wire ++ tail) = Some p /\
+    p_status p = w_status (want_of prog) /\
+    p_body p = (if bodyless m (w_status (want_of prog)) then [] else want_data (want_of prog)) /\
+    p_trailers p = [] /\ p_rest p = tail /\ p_until_close p = false.
+Proof. exact exactly_one_response. Qed.
+Print Assumptions C03_exactly_one_response_partial.
+
+(* the same at the level of Response.Write, for every consistent Response state (not only reachable ones) *)
+Theorem C03_write_parses : forall smsg date, nc smsg -> nc date ->
+  forall m R wire tail,
+  Rinv R -> guard m R -> in_scope (r_hd R) -> stream_small R ->
+  respWrite smsg date R = (wire, WrOk) ->
+  exists p, resp_parse m (wire ++ tail) = Some p /\
+    p_status p = RStatusCode (r_hd R) /\
+    p_body p = (if bodyless m (RStatusCode (r_hd R)) then [] else final_body R) /\
+    p_trailers p = [] /\ p_rest p = tail /\ p_until_close p = false.
+Proof. exact write_parses. Qed.
+Print Assumptions C03_write_parses.
+
+(* HEAD requests and 204 / 304 statuses: the wire is the head and nothing else *)
+Theorem C03_no_body_for_head_204_304 : forall smsg date, nc smsg -> nc date ->
+  forall c q m prog wire cl,
+  Forall hop_wf prog -> raw_free false prog = true -> q_head q = is_head m ->
+  guard m (finished c q prog) -> stream_small (finished c q prog) ->
+  status_in_scope (w_status (want_of prog)) = true ->
+  bodyless m (w_status (want_of prog)) = true ->
+  serve_one smsg date c q prog = (wire, WrOk, cl) ->
+  exists p, resp_parse m wire = Some p /\ p_status p = w_status (want_of prog) /\ p_body p = [] /\ p_rest p = [] /\
+            p_until_close p = false.
+Proof. exact no_body_for_head_204_304. Qed.
+Print Assumptions C03_no_body_for_head_204_304.
+
+(* the next response on the connection starts exactly where this one ends *)
+Theorem C03_next_response_starts_at_end : forall date smsg1 smsg2 c q1 q2 m1 m2 prog1 prog2 w1 w2 cl1 cl2,
+  nc date -> nc smsg1 -> nc smsg2 ->
+  Forall hop_wf prog1 -> Forall hop_wf prog2 -> raw_free false prog1 = true -> raw_free false prog2 = true ->
+  q_head q1 = is_head m1 -> q_head q2 = is_head m2 ->
+  guard m1 (finished c q1 prog1) -> guard m2 (finished c q2 prog2) ->
+  stream_small (finished c q1 prog1) -> stream_small (finished c q2 prog2) ->
+  status_in_scope (w_status (want_of prog1)) = true -> status_in_scope (w_status (want_of prog2)) = true ->
+  serve_one smsg1 date c q1 prog1 = (w1, WrOk, cl1) -> serve_one smsg2 date c q2 prog2 = (w2, WrOk, cl2) ->
+  exists p1 p2, parse_seq [m1; m2] (w1 ++ w2) = Some [p1; p2] /\
+    p_status p1 = w_status (want_of prog1) /\ p_status p2 = w_status (want_of prog2) /\
+    p_body p1 = (if bodyless m1 (w_status (want_of prog1)) then [] else want_data (want_of prog1)) /\
+    p_body p2 = (if bodyless m2 (w_status (want_of prog2)) then [] else want_data (want_of prog2)) /\
+    p_rest p1 = w2 /\ p_rest p2 = [].
+Proof. exact next_response_starts_at_end. Qed.
+Print Assumptions C03_next_response_starts_at_end.
+
+(* a body stream read through Read that yields a different number of bytes than the size declared for it: Write
+   hands at most the declared size to the connection (a prefix of the stream) and fails ... *)
+Theorem C03_stream_size_mismatch : forall smsg date R s n,
+  r_stream R = Some s -> st_kind s = SKReader -> hcl (rh (r_hd R)) = n -> (0 <= n)%Z -> blen (st_data s) <> n ->
+  exists b, respWrite smsg date R = (head_of smsg date (r_hd R) ++ (if sendBody R then b else []), if sendBody R then WrErr else WrOk) /\
+            (blen b <= n)%Z /\ b = firstn (length b) (st_data s).
+Proof. exact stream_size_mismatch. Qed.
+Print Assumptions C03_stream_size_mismatch.
+(* ... and a failed Write closes the connection *)
+Theorem C03_failed_write_closes : forall smsg date c q prog wire cl,
+  serve_one smsg date c q prog = (wire, WrErr, cl) -> cl = true.
+Proof. intros smsg date c q prog wire cl H. destruct (serve_one_write smsg date c q prog wire WrErr cl H) as [_ E]. now apply E. Qed.
+Print Assumptions C03_failed_write_closes.
+
+(* ---- where the full statement fails (findings/C03.txt) ---- *)
+(* key=stream-writerto-oversize: an io.WriterTo stream copies itself unlimited: 20 body bytes after "Content-Length: 5" *)
+Theorem C03_stream_size_mismatch_writerto_refuted :
+  exists wire, serve_one ok d0 cfg0 q_get prog_writerto_oversize = (wire, WrErr, true) /\
+    option_map (fun x => match x with (st, fs, after) => (st, values_of "content-length" fs, length after) end) (head_parse wire)
+      = Some (200%Z, [s2b "5"], 20%nat).
+Proof. exact refuted_writerto_oversize. Qed.
+(* key=manual-content-length-on-chunked-stream: both framing headers, body unchunked, rejected by the reader *)
+Theorem C03_exactly_one_response_refuted_manual_cl :
+  Forall hop_wf prog_manual_cl /\ raw_free false prog_manual_cl = true /\ w_status (want_of prog_manual_cl) = 200%Z /\
+  exists wire, serve_one ok d0 cfg0 q_get prog_manual_cl = (wire, WrOk, false) /\
+    values_of "content-length" (match head_parse wire with Some (_, fs, _) => fs | None => [] end) = [s2b "5"] /\
+    values_of "transfer-encoding" (match head_parse wire with Some (_, fs, _) => fs | None => [] end) = [s2b "chunked"] /\
+    resp_parse MGet wire = None.
+Proof. exact refuted_manual_cl. Qed.
+(* key=skipbody-on-non-head: "Content-Length: 5" and no body; the reader takes "HTTP/" of the next response as body *)
+Theorem C03_exactly_one_response_refuted_skipbody :
+  Forall hop_wf prog_skipbody /\ raw_free false prog_skipbody = true /\ w_status (want_of prog_skipbody) = 200%Z /\
+  exists wire, serve_one ok d0 cfg0 q_get prog_skipbody = (wire, WrOk, false) /\
+    resp_parse MGet wire = None /\
+    option_map p_body (resp_parse MGet (wire ++ second_wire)) = Some (s2b "HTTP/").
+Proof. exact refuted_skipbody. Qed.
+(* key=stream-length-header-lost: no length, no chunking, no close: the next response is read as this body *)
+Theorem C03_exactly_one_response_refuted_length_lost :
+  Forall hop_wf prog_length_lost /\ raw_free false prog_length_lost = true /\ w_status (want_of prog_length_lost) = 200%Z /\
+  exists wire, serve_one ok d0 cfg0 q_get prog_length_lost = (wire, WrOk, false) /\
+    option_map (fun p => (p_until_close p, beq (p_body p) second_wire)) (resp_parse MGet (wire ++ second_wire)) = Some (true, true).
+Proof. exact refuted_length_lost. Qed.
+(* key=appendbody-after-setbodyraw: the raw body is dropped (guard holds, raw_free does not) *)
+Theorem C03_body_refuted_raw_append :
+  Forall hop_wf prog_raw_append /\ guard MGet (finished cfg0 q_get prog_raw_append) /\
+  want_data (want_of prog_raw_append) = s2b "XYZd" /\
+  exists wire, serve_one ok d0 cfg0 q_get prog_raw_append = (wire, WrOk, false) /\
+    option_map p_body (resp_parse MGet wire) = Some (s2b "d").
+Proof. exact refuted_raw_append. Qed.
+
+(* ---- non-vacuity: the guard holds for ordinary programs, and the theorem's conclusion is what one expects ---- *)
+Definition ex_prog : list hop :=
+  [HHdr (ROSetStatusCode 201); HHdr (ROSet (s2b "X-Foo") (s2b "bar")); HSetBody (s2b "hel"); HAppendBody (s2b "lo")].
+Example C03_ex_plain :
+  Forall hop_wf ex_prog /\ raw_free false ex_prog = true /\ guard MGet (finished cfg0 q_get ex_prog) /\
+  option_map (fun p => (p_status p, p_body p, p_rest p)) (resp_parse MGet (fst (fst (serve_one (s2b "Created") d0 cfg0 q_get ex_prog)) ++ s2b "NEXT"))
+    = Some (201%Z, s2b "hello", s2b "NEXT").
+Proof.
+  split; [repeat constructor; cbn [hop_wf rop_wf]; repeat split; try reflexivity; repeat constructor|].
+  split; [reflexivity|]. split; [split; [reflexivity|intros s E; discriminate E]|]. vm_compute. reflexivity.
+Qed.
+Definition ex_chunked : list hop := [HSetBodyStream (-1) (mkStream SKReader [s2b "abc"; s2b "defg"] false)].
+Example C03_ex_chunked :
+  guard MGet (finished cfg0 q_get ex_chunked) /\
+  fst (fst (serve_one ok d0 cfg0 q_get ex_chunked)) =
+    s2b "HTTP/1.1 200 OK" ++ [13;10] ++ s2b "Server: fasthttp" ++ [13;10] ++ s2b "Date: Thu, 01 Jan 1970 00:00:00 GMT" ++ [13;10] ++
+    s2b "Content-Type: text/plain; charset=utf-8" ++ [13;10] ++ s2b "Transfer-Encoding: chunked" ++ [13;10;13;10] ++
+    s2b "3" ++ [13;10] ++ s2b "abc" ++ [13;10] ++ s2b "4" ++ [13;10] ++ s2b "defg" ++ [13;10] ++ s2b "0" ++ [13;10;13;10] /\
+  option_map p_body (resp_parse MHead (fst (fst (serve_one ok d0 cfg0 (mkRq true true false) ex_chunked)))) = Some [].
+Proof.
+  split; [split; [reflexivity|]|].
+  - intros s E Hs Hc. exfalso. vm_compute in Hc. now apply Hc.
+  - vm_compute. split; reflexivity.
+Qed.
